@@ -220,10 +220,44 @@ def register_socket(R):
             "RuntimeError": [("infinite-wait-reported-nothing", f"isinf({T})", "C11")],
         },
         modifies=["ghost.WIRE", "ghost.now", "ghost.waited", "ghost.select_calls", "ghost.unbounded_waits", "ghost.last_wait", "ghost.cb_returned", "ghost.cb_failed"],
-        env={"call_hints": {
+        env={"retry_allowed": {"classes": ["WouldBlockOnWrite"], "tags": "C04",
+                               "name": "a-would-block-of-the-plain-socket-write-waits-for-writability (never for readability: the peer may never write)"},
+             "call_hints": {
             "_retry": [("sendmsg-wrote-a-prefix-of-the-pending-bytes",
                         "0 <= result[0] and result[0] <= len(flat(buffers.items)) and ghost.WIRE == pre(ghost.WIRE) + flat(buffers.items)[:result[0]]")],
             "adjust_leftover_buffer": [("conservation", "ghost.WIRE + flat(buffers.items) == old(ghost.WIRE) + flat(old(iterable_of_data))")],
         }},
         tags="C04 C11",
     )
+    register_socket_noblock(R)
+
+
+def register_socket_noblock(R):
+    """SocketStreamTransport.send_noblock / recv_noblock / recv_noblock_into: one non-blocking system call; a would-block is
+    reported for the direction of the operation (what `_retry` then waits for), and means nothing was transferred."""
+    R.module("verif-stubs/transports.py")
+    R.shape("Socket", cls="Socket", fields={})
+    R.module("easynetwork/lowlevel/api_sync/transports/socket.py")
+    R.contract(
+        "SocketStreamTransport.send_noblock", self_shape="SocketStreamTransport",
+        params={"data": "bytes"}, result="int",
+        ensures=[("a-prefix-of-the-data-was-written", "0 <= result and result <= len(data) and ghost.WIRE == old(ghost.WIRE) + data[:result]", "C04"),
+                 ("progress-on-non-empty-data", "implies(len(data) >= 1, result >= 1)", "C04")],
+        raises={"WouldBlockOnWrite": [("nothing-was-written", "ghost.WIRE == old(ghost.WIRE)", "C04")],
+                "WouldBlockOnRead": [("a-plain-socket-write-never-waits-for-readability", "False", "C04")],
+                "OSError": [("nothing-was-written", "ghost.WIRE == old(ghost.WIRE)", "C04")]},
+        modifies=["ghost.WIRE"], tags="C04",
+    )
+    post = {"recv_noblock": "len(result) <= bufsize and ghost.IN == old(ghost.IN) + result and ghost.EOF == (old(ghost.EOF) or len(result) == 0)",
+            "recv_noblock_into": "0 <= result and result <= len(buffer) and ghost.IN == old(ghost.IN) + buffer[:result] and ghost.EOF == (old(ghost.EOF) or result == 0)"}
+    for name, par, ptype, res in (("recv_noblock", "bufsize", "int", "bytes"), ("recv_noblock_into", "buffer", "view", "int")):
+        R.contract(
+            f"SocketStreamTransport.{name}", self_shape="SocketStreamTransport",
+            params={par: ptype}, result=res,
+            requires=[("size-non-negative", "bufsize >= 0")] if par == "bufsize" else [],
+            ensures=[("what-the-system-call-read-is-what-is-returned", post[name], "C03")],
+            raises={"WouldBlockOnRead": [("nothing-was-read", "ghost.IN == old(ghost.IN) and ghost.EOF == old(ghost.EOF)", "C03 C10")],
+                    "WouldBlockOnWrite": [("a-plain-socket-read-never-waits-for-writability", "False", "C03 C11")],
+                    "OSError": [("nothing-was-read", "ghost.IN == old(ghost.IN) and ghost.EOF == old(ghost.EOF)", "C03 C10")]},
+            modifies=["ghost.IN", "ghost.EOF", "ghost.recv_calls", "buffer"] if par == "buffer" else ["ghost.IN", "ghost.EOF", "ghost.recv_calls"], tags="C03",
+        )
